@@ -2,7 +2,8 @@
 # usage: seedtest.sh <seed-id> <property> [tier]   — applies /verif/seeded/<seed-id>/patch.diff to /repo, runs the check, reverts
 set -u
 SID=$1; PID=$2; TIER=${3:-quick}
-cd /repo && git apply /verif/seeded/$SID/patch.diff || { echo "patch does not apply"; exit 3; }
-cd /verif && timeout 3000 ./check $PID --tier $TIER > /tmp/seedtest-$SID.log 2>&1; RC=$?
-cd /repo && git checkout -- . && git status --short | head -3
-echo "check exit=$RC"; grep -E "^(VIOLATION|INCONCLUSIVE|check )" /tmp/seedtest-$SID.log | cut -c1-220 | head -6
+R=${SEED_REPO:-/repo}   # the tree the seed is applied to (registered runs: /repo itself)
+cd $R && git apply /verif/seeded/$SID/patch.diff || { echo "patch does not apply"; exit 3; }
+cd /verif && VERIF_SCRATCH_EVIDENCE=1 VERIF_REPO=$R timeout 3000 ./check $PID --tier $TIER > /tmp/seedtest-$SID-$(basename $R).log 2>&1; RC=$?
+cd $R && git checkout -- . && git status --short | head -3
+echo "check exit=$RC"; grep -E "^(VIOLATION|INCONCLUSIVE|check )" /tmp/seedtest-$SID-$(basename $R).log | cut -c1-220 | head -6
